@@ -30,7 +30,7 @@ func (s *sim) dctx() context.Context { return injection.WithControllerName(s.ctx
 
 // freshMethod returns a new instance of the named method (no consolidation-state memo from earlier calls).
 func (s *sim) freshMethod(name string) (kdisruption.Method, error) {
-	ms := kdisruption.NewMethods(s.w.Clock, s.cluster, s.w.Client, s.prov, s.w.Prov, s.w.Rec, s.queue)
+	ms := kdisruption.NewMethods(s.w.Clock, s.cluster, s.w.Client, s.prov, s.frameProvider(), s.w.Rec, s.queue)
 	for _, m := range ms {
 		if methodName(m) == name {
 			return m, nil
@@ -96,7 +96,7 @@ func (s *sim) runCandidates(method string) error {
 	s.w.Emit(trace.M{"e": "Begin", "controller": "disruption.candidates", "object": method})
 	var names []string
 	errS, panicked := s.guarded(nil, func() error {
-		cs, e := kdisruption.GetCandidates(s.dctx(), s.cluster, s.w.Client, s.w.Rec, s.w.Clock, s.w.Prov, m.ShouldDisrupt, m.Class(), s.queue)
+		cs, e := kdisruption.GetCandidates(s.dctx(), s.cluster, s.w.Client, s.w.Rec, s.w.Clock, s.frameProvider(), m.ShouldDisrupt, m.Class(), s.queue)
 		names = candNames(cs)
 		return e
 	})
@@ -132,7 +132,7 @@ func (s *sim) runMethod(method string, during []Step) error {
 	var budgets map[string]int
 	errS, panicked := s.guarded(during, func() error {
 		ctx := s.frameCtx(s.dctx()) // C18: Method{value:"cancelled"|"deadline", d:k} runs the method under an expiring context
-		cs, totals, e := kdisruption.GetCandidatesWithTotals(ctx, s.cluster, s.w.Client, s.w.Rec, s.w.Clock, s.w.Prov, m.ShouldDisrupt, m.Class(), s.queue, s.cost)
+		cs, totals, e := kdisruption.GetCandidatesWithTotals(ctx, s.cluster, s.w.Client, s.w.Rec, s.w.Clock, s.frameProvider(), m.ShouldDisrupt, m.Class(), s.queue, s.cost)
 		s.w.Emit(trace.M{"e": "Cands", "mode": "method", "method": method, "class": m.Class(), "names": candNames(cs)})
 		if e != nil || len(cs) == 0 {
 			return e
@@ -140,7 +140,7 @@ func (s *sim) runMethod(method string, during []Step) error {
 		if setter, ok := m.(kdisruption.NodePoolTotalsSetter); ok {
 			setter.SetNodePoolTotals(totals)
 		}
-		budgets, e = kdisruption.BuildDisruptionBudgetMapping(ctx, s.cluster, s.w.Clock, s.w.Client, s.w.Prov, s.w.Rec, m.Reason())
+		budgets, e = kdisruption.BuildDisruptionBudgetMapping(ctx, s.cluster, s.w.Clock, s.w.Client, s.frameProvider(), s.w.Rec, m.Reason())
 		if e != nil {
 			return e
 		}
@@ -404,6 +404,7 @@ func (s *sim) step(st Step) error {
 			return fmt.Errorf("SetPool: unknown pool %q", st.Value)
 		}
 		s.emitObj(np)
+		s.frameReconcileOverlays() // C18: the nodeoverlay controller watches NodePools (generation changes)
 		s.deliver("NodePool", st.Value, "")
 	case "Snapshot":
 		s.snapshot("step")
@@ -413,6 +414,8 @@ func (s *sim) step(st Step) error {
 		return s.runPass()
 	case "CapacityBuffer": // C18 (x_frame.go)
 		return s.runCapacityBuffer(st)
+	case "SetOverlay", "DeleteOverlay": // C18 (x_frame.go)
+		return s.runOverlay(st)
 	default:
 		return fmt.Errorf("unknown step %q", st.A)
 	}
